@@ -6,7 +6,7 @@ import numpy as np
 
 
 def make_table(rng, n_mut, n_samples, depth=(20, 400), tumour_content=True, error_rate=False, string_ids=True,
-               cn_variety=True):
+               cn_variety=True, junk_from=None):
     """Rows (list of dict) of a valid input table: every mutation once per sample, major_cn >= max(minor_cn, 1)."""
     rows = []
     samples = ["S%s" % chr(65 + s) for s in range(n_samples)]
@@ -24,7 +24,10 @@ def make_table(rng, n_mut, n_samples, depth=(20, 400), tumour_content=True, erro
             else:
                 major, minor = 1, 1
             normal = 2
-            d = int(rng.integers(depth[0], depth[1] + 1))
+            if junk_from is not None and m >= junk_from:
+                d = int(rng.integers(2, 9))  # barely informative rows: plausible outliers
+            else:
+                d = int(rng.integers(depth[0], depth[1] + 1))
             f = float(np.clip(ccf[si, : clone + 1].sum(), 0, 1))
             t = tc[s] if tumour_content else 1.0
             vaf = t * f * 1.0 / (t * (major + minor) + (1 - t) * normal)
